@@ -195,6 +195,12 @@ def check(ctx):
                   at_exit_c, instance=f"{f.qual}: no live timer survives")
         for st, _ in tn:
             pass
+    # a new timer is armed from outside the timer callback only after the previous one was dropped (else the old one stays
+    # scheduled after the scope is left: residue in the loop, and it cancels a scope that was never due)
+    dset = ctx.fn("CancelScope.deadline@setter", A)
+    for st, _ in ctx.sites(dset, "self._timeout()"):
+        ctx.require_at("R05-c", dset, st, [["not self._timeout_handle"], ["self._timeout_handle is None"]],
+                       instance="deadline assignment re-arms only after the old timer was cancelled and forgotten", what="re-arm")
     # in cancel() the timer is dropped on the path that marks the scope cancelled
     def step_k(st, e, c):
         if c.is_exc:
